@@ -1,5 +1,6 @@
 import RustCcModel.Model.Machine
 import RustCcModel.Proofs.TraceFlagEv
+import RustCcModel.Proofs.NoNesting
 /-! # C12 — collector phases are observable and collections never nest
 
 Step-level facts of the machine (the global part — "idle ⇒ all flags false", which makes
@@ -91,6 +92,14 @@ theorem not_tracing_unless_collector_on_top (c : Cfg) (nH nW nK : Nat) (w : Worl
 theorem tracing_when_pass_on_top (c : Cfg) (nH nW nK : Nat) (w : World) (h : Reachable c nH nW nK w)
     (rest : List Frame) (hs : w.stack = .collectPass :: rest) : w.isTracing c = true :=
   isTracing_true_of_pass c w rest hs (reachable_all c nH nW nK w h).flags (reachable_all c nH nW nK w h).inv.wf
+
+/-- **A collection never starts while another is in progress**: in every reachable world — whatever finalizers, destructors,
+cleaning actions and `new_cyclic` closures requested, at any nesting depth — at most one `collect` is active (one
+`collectLoop` frame on the stack), and `collecting` is true exactly when one is. -/
+theorem collections_never_nest (c : Cfg) (nH nW nK : Nat) (w : World) (h : Reachable c nH nW nK w) :
+    loops w.stack ≤ 1 ∧ (w.collecting = true ↔ loops w.stack = 1) := by
+  have := reachable_no_nesting h
+  cases hc : w.collecting <;> simp [hc] at this <;> simp [this]
 
 /-- Non-vacuity: a script frame is not a collector frame, a pass frame is. -/
 example : (Frame.script [.collect] (some 0) none false).quiet = false ∧ Frame.collectPass.quiet = true := ⟨rfl, rfl⟩
